@@ -728,6 +728,11 @@ class Interp:
             return PyMethod(obj, name)
         if isinstance(obj, ExcValue):
             raise Unsupported("attribute of exception")
+        if isinstance(obj, V.Opt):
+            # attribute of a possibly-None value: AttributeError when it is None, the value's attribute otherwise
+            if self.cx.branch(obj.is_none):
+                raise SymRaise(ExcValue("AttributeError"))
+            return self.getattr(obj.value, name)
         if hasattr(obj, "sym_getattr"):
             r = obj.sym_getattr(self, name)
             if r is not V.MISSING:
